@@ -84,7 +84,49 @@ def c09(tier, seed):
     }
 
 
-TABLE = {"C09": c09}
+def M(name, claim, tier="q", **kw):
+    d = {"name": name, "engine": "mirsmt", "harness": name, "cap": 600, "tier": tier, "claim": claim,
+         "to_case": lambda o, info: info.get("playback_cases", [])}
+    d.update(kw)
+    return d
+
+
+def c07(tier, seed):
+    full = "all operands (full 3x64-bit width, a,b < p), no sampling"
+    obs = [
+        M("c07::translator-validation", "the MIR interpreter run on concrete vectors reproduces the natively compiled field code (encoding is faithful)", bounds="boundary lattice x itself + VERIF_SEED randoms"),
+        M("c07::vectors-vs-bigint-model", "real add/sub/mul/neg/double/square/invert/sqrt/pow/from_repr/to_repr/eq/cmp/is_odd agree with Python big integers mod 2^128+12451 on the boundary lattice and seeded operands, dev and release builds", bounds="boundary lattice around 0,1,2^64,2^128,p-1,p,(p-1)/2 crossed with itself + seeded uniform operands (concrete cross-check, not the deciding step)"),
+        M("c07::add_assign", "limbs(a+b) == (A+B) mod p and < p; no MIR overflow/index assert reachable", bounds=full, functions=["Fp::add_assign", "Fp::add_nocarry", "Fp::reduce", "Fp::is_valid", "Fp::cmp_native", "Fp::sub_noborrow"]),
+        M("c07::sub_assign", "limbs(a-b) == (A-B) mod p and < p", bounds=full, functions=["Fp::sub_assign"]),
+        M("c07::neg", "limbs(-a) == (p-A) mod p", bounds=full, functions=["Fp::neg"]),
+        M("c07::double", "limbs(2a) == 2A mod p", bounds=full, functions=["Fp::double"]),
+        M("c07::cmp_native", "limb comparison == integer comparison", bounds="all 192-bit limb triples (validity not assumed)", functions=["Fp::cmp_native"]),
+        M("c07::is_valid", "is_valid(a) iff integer(a) < p", bounds="all 192-bit limb triples", functions=["Fp::is_valid"]),
+        M("c07::mul_assign", "Montgomery product: out*2^192 == A*B (mod p), out < p, no carry lost, no MIR assert reachable", bounds=full + "; symbolic limb products are shared opaque terms with the product lemma", functions=["Fp::mul_assign", "Fp::mont_reduce", "ff::derive::mac/adc (modelled)"]),
+        M("c07::square", "out*2^192 == A*A (mod p), out < p", bounds=full, functions=["Fp::square", "Fp::mont_reduce"]),
+        M("c07::product-lemma", "sum a_i*b_j*2^(64(i+j)) == A*B and A*B <= (p-1)^2 for A,B < p (true nonlinear arithmetic)", bounds="all integers"),
+        M("c07::to_repr", "to_repr(a) is the 24-byte little-endian encoding of t < p with t*2^192 == limbs (mod p): one canonical encoding per element", bounds=full, functions=["Fp::to_repr", "Fp::mont_reduce", "byteorder::write_u64_into (modelled)"]),
+        M("c07::from_repr", "from_repr(b) is Some iff int_le(b) < p, and then the Montgomery form of that integer", bounds="all 2^192 byte strings", functions=["Fp::from_repr", "ff::derive::sbb (modelled)", "byteorder::read_u64_into (modelled)", "Fp::mul_assign (by its proved contract)"]),
+        M("c07::from_u64", "Fp::from(v) is the Montgomery form of v", bounds="all u64", functions=["<Fp as From<u64>>::from"]),
+        M("c07::algebra", "2^192 is invertible mod p (so the congruences above determine values uniquely)", bounds="all integers"),
+        M("c07::constants", "MODULUS, R, R2, INV, NUM_BITS, CAPACITY, S, TWO_INV, MULTIPLICATIVE_GENERATOR, ROOT_OF_UNITY(_INV), DELTA, ZERO, ONE have their interface meaning (closed formulas over the constants parsed from the MIR)", bounds="ground"),
+        M("c07::addition-chains", "invert raises to p-2 and sqrt to (p+1)/4: exponent tracked through the square/mul chain of the MIR, using the proved contracts of square and mul", bounds="ground", functions=["Fp::invert", "Fp::sqrt"]),
+    ]
+    return {
+        "obligations": obs,
+        "level": "proof",
+        "bounds": "no bound on operands: all canonical limb triples / all 24-byte strings; loop-free or concretely-bounded MIR (3-limb iterators)",
+        "outside": "ff::Field::pow / pow_vartime (default methods of the external ff crate, body not in the repository's MIR; covered only by the concrete vector cross-check); Fp::random's distribution; that a^(p-2) is the inverse and a^((p+1)/4) a square root (Fermat / Euler: number theory, assumption); that (p-1)/2 is prime (used for 'generator')",
+        "assumptions": ["ff::derive::{mac,adc,sbb}, u64::wrapping_mul and byteorder::{read,write}_u64_into are modelled from their 3-line definitions (external crates)",
+                        "the rustc MIR dump (-Zunpretty=mir, overflow-checks=on) is the semantics of the compiled code",
+                        "p = 2^128+12451 is prime and (p-1)/2 is prime (number theory, not decided by SMT)",
+                        "Fermat's little theorem / Euler's criterion for the meaning of the invert and sqrt exponents"],
+        "trusted_base": ["/verif/mirsmt (MIR parser + symbolic interpreter, validated against the native build on every run)", "/usr/bin/z3 4.8.12 and cvc5 1.0 (every query sent to both)", "rustc nightly MIR dump"],
+        "explanation": "symbolic execution of the MIR of the derived field code into integer SMT (wrap-around explicit), obligations decided by z3 and cvc5 for all operands",
+    }
+
+
+TABLE = {"C09": c09, "C07": c07}
 
 
 def get(pid, tier, seed):
